@@ -98,7 +98,10 @@ class BundleInstance:
     ):
         self.name = name
         self.of = of
-        self.port = port  # FIXME: make this a `Visibility`
+        if isinstance(port, Visibility):
+            # Accept the `Signal`-style spelling too. (Both `Visibility` values are truthy.)
+            port = port == Visibility.PORT
+        self.port = bool(port)  # FIXME: make this a `Visibility`
         self.flipped = flipped
         self.role = role
         self.src = src
